@@ -94,6 +94,10 @@ def items(tier, seed):
         # one renumbered state for a few pairs
         for (a, b) in pairs[:4]:
             its.append((names[0], 'raw', a, b, 'pair'))
+        # micro- and mega-scale geometry (exact dyadic scalings): magnitudes of entries span 1e-40 .. 1e+20
+        for (a, b) in pairs[:3]:
+            its.append((names[0], 'scaled-tiny', a, b, 'pair'))
+            its.append((names[0], 'scaled-huge', a, b, 'pair'))
     return its
 
 
@@ -114,6 +118,10 @@ def get_mesh(sname, lab, seed):
             st = nx
             break
         return st.build()
+    if lab in ('scaled-tiny', 'scaled-huge'):
+        m = ms.seeds(seed)[sname].build()
+        f = 2.0 ** -22 if lab == 'scaled-tiny' else 2.0 ** 20
+        return m.scaled(tuple([f] * m.p.shape[0]))
     return c10.get_mesh(sname, lab, seed, 'quick')
 
 
@@ -313,7 +321,7 @@ def run_case(out, m, sname, lab, kind, dim, an, bn, blab, ub, vb, mode, tier, nk
                 loc = np.asarray(val).sum(axis=1)
                 np.add.at(R, (vd[i], ud[j]), loc)
                 np.add.at(S, (vd[i], ud[j]), np.abs(np.asarray(val)).sum(axis=1))
-        tol = 1e-11 * (1 + S)
+        tol = 1e-11 * S + 1e-300          # relative to the sum of |contributions| only: no absolute floor
         if (np.abs(Ad - R) > tol).any():
             i, j = np.unravel_index(np.argmax(np.abs(Ad - R) - tol), R.shape)
             tr = " (equals the transpose of the reference)" if Nu == Nv and np.allclose(Ad, R.T, atol=1e-11) else ''
@@ -360,7 +368,7 @@ def run_case(out, m, sname, lab, kind, dim, an, bn, blab, ub, vb, mode, tier, nk
                     okf = False
                     break
                 out.ev()
-                if abs(s - R[i, j]) > 1e-10 * (1 + S[i, j]):
+                if abs(s - R[i, j]) > 1e-10 * S[i, j] + 1e-300:
                     bad('functional-vs-matrix', f"v^T A u for u=e_{j}, v=e_{i}: matrix entry {R[i, j]!r} but the functional of the "
                         f"integrand on the interpolated unit vectors gives {s!r}")
                     okf = False
@@ -394,7 +402,7 @@ def run_case(out, m, sname, lab, kind, dim, an, bn, blab, ub, vb, mode, tier, nk
                     val = lin(*vb.basis[i], wv) * vb.dx
                     np.add.at(Rb, vd[i], np.asarray(val).sum(axis=1))
                     np.add.at(Sb, vd[i], np.abs(np.asarray(val)).sum(axis=1))
-                if bvec.shape != (Nv,) or (np.abs(bvec - Rb) > 1e-11 * (1 + Sb)).any():
+                if bvec.shape != (Nv,) or (np.abs(bvec - Rb) > 1e-11 * Sb + 1e-300).any():
                     bad('vector-vs-scatter', "LinearForm.assemble differs from the explicit scatter")
                 funl = Functional(lambda w: lin(*(w[f'vv{c}'] for c in range(ncv)), w), dtype=dtype)
                 for i in range(Nv):
@@ -405,15 +413,17 @@ def run_case(out, m, sname, lab, kind, dim, an, bn, blab, ub, vb, mode, tier, nk
                     s = funl.assemble(vb, f=DiscreteField(fval), g=DiscreteField(garr), s=sval,
                                       **{f'vv{c}': r[c] for c in range(ncv)})
                     out.ev()
-                    if abs(s - Rb[i]) > 1e-10 * (1 + Sb[i]):
+                    if abs(s - Rb[i]) > 1e-10 * Sb[i] + 1e-300:
                         bad('functional-vs-vector', f"b[{i}] = {Rb[i]!r} but the functional on interpolate(e_{i}) gives {s!r}")
                         break
                 # scalar: J = sum_c elemental
                 funJ = Functional(lambda w: fc(w) * z + 0 * w.x[0], dtype=dtype)
                 J = funJ.assemble(vb, f=DiscreteField(fval), g=DiscreteField(garr), s=sval)
                 Je = funJ.elemental(vb, f=DiscreteField(fval), g=DiscreteField(garr), s=sval)
-                Jr = ((fc(wv) * z + 0 * np.asarray(wv['x'])[0]) * vb.dx).sum()
-                if abs(J - Jr) > 1e-11 * (1 + abs(Jr)) or abs(Je.sum() - Jr) > 1e-11 * (1 + abs(Jr)) or Je.shape != (vb.nelems,):
+                Jt = (fc(wv) * z + 0 * np.asarray(wv['x'])[0]) * vb.dx
+                Jr = Jt.sum()
+                Js = np.abs(Jt).sum() + 1e-300
+                if abs(J - Jr) > 1e-11 * Js or abs(Je.sum() - Jr) > 1e-11 * Js or Je.shape != (vb.nelems,):
                     bad('functional-scalar', f"Functional.assemble = {J!r}, elemental sum = {Je.sum()!r}, explicit sum = {Jr!r}")
             except Exception as e:
                 bad('linear-exception', repr(e))
